@@ -6,6 +6,7 @@ mod diag;
 mod e2e;
 mod exec;
 mod gen;
+mod mixed;
 mod oracle;
 mod prog;
 mod scn;
